@@ -101,7 +101,7 @@ def run(ctx):
                       # every fifth history also defines new fundamental dimensions at run time (which re-keys
                       # every known dimension); the foreign pickles and JSON documents loaded there were written
                       # for the shipped number of fundamental dimensions (stored data outlives such a declaration)
-                      "define_dimension": i % 5 == 0,
+                      "define_dimension": i % 5 == 0, "parse_between_imports": i % 3 == 1,
                       "foreign_pickles": blobs[3 * i:3 * i + 3]})
     with ThreadPoolExecutor(max_workers=14) as ex:
         results = list(ex.map(run_worker, specs))
@@ -131,7 +131,10 @@ def run(ctx):
             ctx.sample({"seed": spec["seed"], "operations": res["shape"], "compound_units_registered": registered})
     for key, seen in panel.items():
         ctx.count("probe_expressions_compared")
-        if len(seen) > 1:
+        if len(seen) > 1 and key.startswith("text:"):
+            ctx.violation("C01:dimension-depends-on-history", f"Unit.parse({key[5:]!r}), asked after every unit module was imported, has dimension exponents {list(seen)} in different "
+                          f"histories (seeds {list(seen.values())})", {"text": key[5:], "dimensions_by_seed": {str(v): list(k) for k, v in seen.items()}})
+        elif len(seen) > 1:
             t = json.loads(key)
             ctx.violation("C01:dimension-depends-on-history", f"{model.show(t)} has dimension exponents {list(seen)} in different histories (seeds {list(seen.values())})",
                           {"term": t, "dimensions_by_seed": {str(v): list(k) for k, v in seen.items()}})
